@@ -434,18 +434,18 @@ fn main() {
     let run = Run::from_args("C20", Level::ModelChecking);
     run.rule("state = full history of aggregation parameters (bits<=3: all 273 parameters = every non-empty prefix set at every level; bits=4: sets of size <=2 plus the full set; deep levels around 8,64,65,128 (thorough: 7..1000): sets of size <=2 of strings that differ in a single position, histories of length 1), transition = offering a candidate to the real is_agg_param_valid, invariant = agreement with the specification predicate over Vec<bool>; constructor: every list of <=3 prefixes of length 0..3; decoder: every string of the grammar with level in {0..3,6..9,15,16}, count <=4, body bytes over a 6-value alphabet, lying count fields, +-1 byte; Prio3/Prio2: histories of length 0..3");
     let q = run.quick();
-    // bits <= 3: all histories of length <= 2 followed by every candidate; thorough adds length 3
+    // bits <= 3: all histories of length <= 2 followed by every candidate; thorough: length 4 for bits <= 2, length 3 for bits = 3 below
     for bits in 1..=3usize {
-        histories(&run, bits, usize::MAX, if q || bits == 3 { 2 } else { 3 }, usize::MAX);
+        histories(&run, bits, usize::MAX, if q || bits == 3 { 2 } else { 4 }, usize::MAX);
     }
     if !q {
         // bits = 3, length 3: the two oldest entries from the 18 parameters of levels 0 and 1
-        histories(&run, 3, usize::MAX, 3, 18);
+        histories(&run, 3, usize::MAX, 3, 100);
     }
-    histories(&run, 4, 2, if q { 1 } else { 2 }, if q { 0 } else { 64 });
+    histories(&run, 4, 2, if q { 1 } else { 2 }, if q { 0 } else { 160 });
     // deep levels (the `bits` tag of these cases is the anchor level + 3)
     for anchor in if q { vec![8usize, 64, 65, 128] } else { vec![7, 8, 15, 16, 31, 32, 63, 64, 65, 66, 127, 128, 129, 255, 256, 1000] } {
-        histories_over(&run, anchor + 3, deep_params(anchor), 1, 0);
+        histories_over(&run, anchor + 3, deep_params(anchor), if q { 1 } else { 2 }, if q { 0 } else { 24 });
     }
     constructor(&run, 3);
     decoder(&run, !q);
